@@ -317,6 +317,21 @@ func init() {
 				}
 			}
 		}
+		// helpers that take a NAME (contentOf, contentFor, partial) where a variable of that very name holds the
+		// payload string: the name is a name, the variable's text does not reach the output through it
+		for _, p := range payloads {
+			for _, t := range [][2]string{
+				{`[[<%= contentOf("p") { %>d<% } %>]]`, "d"}, {`<% let title = p %>[[<%= contentOf("title") { %>Untitled<% } %>]]`, "Untitled"},
+				{`[[<%= for (name) in ss { %><%= contentOf("name") { %>-<% } %><% } %>]]`, "-"}, {`<% contentFor("p") { %>stored<% } %>[[<%= contentOf("p") %>]]`, "stored"},
+				{`<% let echo = p %>[[<%= partial("echo", {who: "w"}) %>]]`, "w"},
+			} {
+				c := RCase{Tmpl: t[0], Binds: []Bind{{"p", vStr(p)}, {"ss", vSlice("string", vStr(p))}}, Parts: map[string]string{"echo": `<%= who %>`}}
+				o := e.addRenderCase("name-taking-helpers", c)
+				if o.Class != "OK" || o.Out != "[["+t[1]+"]]" {
+					e.Violate("c01-escape", fmt.Sprintf("%s with payload %q rendered %q (%s %s), want %q", t[0], p, o.Out, o.Class, o.Msg, "[["+t[1]+"]]"), map[string]interface{}{"case": c, "payload": p, "observed": o})
+				}
+			}
+		}
 		// a variable holds whatever was assigned to it last: a plain string assigned to a variable that
 		// held trusted HTML is escaped, trusted HTML assigned to one that held a string is verbatim
 		for _, p := range payloads {
